@@ -1,6 +1,8 @@
 mod c09;
 mod c10;
+mod calls;
 mod common;
+mod config;
 mod detectors;
 mod dirs;
 mod layout;
@@ -59,6 +61,28 @@ fn main() {
             dirs::random(&a(5), &a(3), a(6).parse().unwrap_or(0), pruned, &mut w, &mut out);
             w.finish();
         }
+        "c15-baseline" => calls::baseline(&a(2), a(3).parse().unwrap_or(12), &a(4), &mut out),
+        "c15-run" => {
+            // c15-run <schedules> <corpus> <max files> <baseline.json> <seq rounds> <trace>
+            let mut w = NdjsonWriter::new(&a(7));
+            calls::run(&a(2), &a(3), a(4).parse().unwrap_or(12), &a(5), a(6).parse().unwrap_or(1), &mut w, &mut out);
+            w.finish();
+        }
+        "analyze" => {
+            // analyze <file>: every detector on one file
+            let text = std::fs::read_to_string(a(2)).expect("read");
+            let mut m = serde_json::Map::new();
+            for d in detectors::all() {
+                m.insert(d.name(), match d.run(&text) {
+                    Ok(s) => serde_json::json!(s),
+                    Err(e) => serde_json::json!({"panic": e}),
+                });
+            }
+            out.set("results", serde_json::Value::Object(m));
+        }
+        "names-check" => config::names_check(&a(2), &mut out),
+        "report-parse-batch" => config::report_parse_batch(&a(2), &mut out),
+        "report-parse" => config::report_parse(&a(2), &mut out),
         _ => usage(),
     }
     out.print();
